@@ -5,6 +5,7 @@ import Driver.LoaderD
 import Driver.SoapD
 import Driver.PipelineD
 import Driver.WsaD
+import Driver.WsseD
 /-! Line-protocol driver: one JSON object per stdin line, one per stdout line. -/
 open Lean Driver
 
@@ -21,6 +22,8 @@ def dispatch (j : Json) : R Json := do
   | "soap.triage" => soapTriage j
   | "pipeline.run" => pipelineRun j
   | "wsa.request" => wsaRequest j
+  | "wsse.apply" => wsseApply j
+  | "sha1" => sha1Hex j
   | _ => throw s!"unknown op {op}"
 
 def handleLine (line : String) : String :=
